@@ -1240,6 +1240,62 @@ def last_rc(runs):
     return 0
 
 
+def edit_history(ctx, en, lay):
+    """A run / hand edit / run history for the `file` layouts with constants spread over several files: the package first holds an
+    EARLIER version of one of the OTHER files (not the -file file), shoot runs, the file is edited to its final content, the identical
+    command runs again.  The expectation is the single-run model of the final sources.
+    -> (files at the start, [edit step]) or None when the layout does not allow it.  Kinds of edit: a constant added, a value changed,
+    a constant removed."""
+    import copy
+    rng = ctx.rng
+    if not lay["mode"].startswith("file") or not lay["spread"]:
+        return None
+    tf = en.get("typefile", 0)
+    others = [k for k, f in enumerate(en["files"]) if k != tf and f["blocks"]]
+    if not others:
+        return None
+    k = rng.choice(others)
+    pre = copy.deepcopy(en)
+    f = pre["files"][k]
+    T = en["T"]
+    kind_of = rng.choice(["add", "add", "change", "remove"])
+    blk = f["blocks"][-1]
+    last = blk["specs"][-1]
+    if kind_of == "add":
+        # the final sources have one more spec than the earlier version
+        if len(blk["specs"]) > 1:
+            blk["specs"].pop()
+        elif len(f["blocks"]) > 1 or sum(len(g["blocks"]) for g in en["files"]) > 1:
+            f["blocks"].pop()
+        else:
+            return None
+    elif kind_of == "change":
+        cand = [sp for b in f["blocks"] for sp in b["specs"] if sp["form"] == "t" and sp["exprs"][0][0] in ("lit", "hex", "lin")]
+        if not cand:
+            return None
+        sp = rng.choice(cand)
+        e = sp["exprs"][0]
+        sp["exprs"][0] = (e[0], e[1] + 1) if e[0] in ("lit", "hex") else ("lin", e[1], e[2] + 1)
+    else:
+        # the earlier version had one more constant, which the edit removes
+        blk["paren"] = True
+        lo, hi = krange(en["kind"])
+        blk["specs"].append({"names": ["%sGone%d" % (T, rng.randint(0, 99))], "form": "t", "ty": T, "exprs": [("lit", rng.randint(max(lo, 0), min(hi, 100)))]})
+    try:
+        _, d = evaluate(pre)
+    except (ValueError, KeyError):
+        return None
+    if not d:
+        return None
+    name = en["files"][k]["name"]
+    pre_files = render_files(pre, aux_separate=True)
+    if pre_files.get(name) is None or pre_files[name] == lay["files"][name]:
+        return None
+    files = dict(lay["files"])
+    files[name] = pre_files[name]
+    return files, [{"write": {name: lay["files"][name]}}], kind_of
+
+
 def generated_files(written):
     return {rel: content for rel, content in written.items() if ".shootenum" in rel and rel.endswith(".go")}
 
